@@ -160,6 +160,8 @@ type SE struct {
 	b string
 	C []int
 	d *int
+	// unexported although it does not start with a lower-case letter
+	_u uint32
 	E bool
 }
 
